@@ -288,7 +288,7 @@ func genHandoff(l *leanFile, rt, db *ast.File) {
 	}
 
 	// deliverDeduplicatedEvents + dedup.takeOne
-	deliverAcquire, deliverRoute, lookupThenTrigger := false, ".unknown", false
+	deliverAcquire, deliverRoute, lookupThenTrigger, skipsUnknown := false, ".unknown", false, false
 
 	takeOneOK := false
 
@@ -312,8 +312,13 @@ func genHandoff(l *leanFile, rt, db *ast.File) {
 			t[4] == "controllers, err := runtime.depDB.GetDependentControllers(controller.Input{ Namespace: k.Namespace, Type: k.Typ, ID: optional.Some(k.ID), })" &&
 			strings.HasPrefix(t[5], "if err != nil {") && strings.HasSuffix(t[5], " continue }") &&
 			t[6] == "runtime.controllersMu.RLock()" &&
-			t[7] == "for _, ctrl := range controllers { runtime.controllers[ctrl].WatchTrigger(&k) }" &&
+			(t[7] == "for _, ctrl := range controllers { runtime.controllers[ctrl].WatchTrigger(&k) }" ||
+				t[7] == "for _, ctrl := range controllers { if adapter, ok := runtime.controllers[ctrl]; ok { adapter.WatchTrigger(&k) } }") &&
 			t[8] == "runtime.controllersMu.RUnlock()"
+
+		// a name that is not (or no longer) in runtime.controllers — a registration rejected after the lookup — is skipped
+		skipsUnknown = lookupThenTrigger &&
+			t[7] == "for _, ctrl := range controllers { if adapter, ok := runtime.controllers[ctrl]; ok { adapter.WatchTrigger(&k) } }"
 	}
 
 	// GetDependentControllers: the result is a fresh slice (slices.Concat of the two lookups)
@@ -349,6 +354,8 @@ func genHandoff(l *leanFile, rt, db *ast.File) {
 	l.line("def deliverRoute : DeliverRoute := %s", deliverRoute)
 	l.line("/-- deliverDeduplicatedEvents: after handing the map back, GetDependentControllers(key), then under controllersMu.RLock WatchTrigger for each -/")
 	l.line("def lookupThenTrigger : Bool := %s", leanBool(lookupThenTrigger))
+	l.line("/-- the trigger loop skips looked-up names that are not in runtime.controllers (a registration rejected meanwhile) -/")
+	l.line("def triggerSkipsUnknown : Bool := %s", leanBool(skipsUnknown))
 	l.line("/-- dependency.(*Database).GetDependentControllers returns slices.Concat of the two lookups: a fresh slice -/")
 	l.line("def dependentsFresh : Bool := %s", leanBool(fresh))
 }
